@@ -170,6 +170,8 @@ def mutate(r, g, insts, per_class=2):
                 lastk = "KSelect_ref"
         cands.append(("unterminated_after_null" if lastk == "null" else "unterminated_instance", "missing ); after %s" % lastk,
                       with_toks(toks[:-1], noterm=True), iid, True))
+        # the number sign of the instance name is missing: text that is no instance stands between two instances
+        cands.append(("missing_number_sign", "%d=... instead of #%d=..." % (iid, iid), with_toks(toks, nohash=True), iid, False))
         # the closing parenthesis alone is missing: the record still ends at its semicolon, the neighbours are intact
         if not inst["complex"] and toks[-1] == ")":
             cands.append(("missing_close_paren", "missing ) before ; after %s" % lastk, with_toks(toks[:-1]), iid, False))
@@ -209,7 +211,7 @@ def render(g, insts):
     out = [("ISO-10303-21;\nHEADER;\nFILE_DESCRIPTION(('d'),'2;1');\n"
             "FILE_NAME('f','2020-01-01T00:00:00',('a'),('o'),'p','s','a');\nFILE_SCHEMA(('VERIF_ALL'));\nENDSEC;\nDATA;\n")]
     for i in insts:
-        line = "#%d=%s" % (i["id"], "".join(i["toks"]))
+        line = "%s%d=%s" % ("" if i.get("nohash") else "#", i["id"], "".join(i["toks"]))
         out.append(line + ("\n" if i.get("noterm") else ";\n"))
     out.append("ENDSEC;\nEND-ISO-10303-21;\n")
     return "".join(out).encode("latin-1")
